@@ -137,6 +137,8 @@ func (w *world) startServer() {
 	w.smux.SetServerUsers(map[string]*appctlpb.User{
 		alice: {Name: proto.String(alice), Password: proto.String(alicePw)},
 		bob:   {Name: proto.String(bob), Password: proto.String(bobPw)},
+		// an entry with a name and no credential at all: it must not become a user whose password is the empty string
+		"guest": {Name: proto.String("guest")},
 	})
 	if w.udp {
 		w.smux.SetPacketListenerFactory(w.pnet)
@@ -543,6 +545,7 @@ func (w *world) noCredential() {
 		w.probe(event{Cls: "wrong-password-for-alice", Hdr: "full", Cred: "foreign", Body: "ok", Kind: "open", Sid: 7}, w.forged(alice, "not-alices-password", alice, 50*rep))
 		w.probe(event{Cls: "unknown-user", Hdr: "full", Cred: "foreign", Body: "ok", Kind: "open", Sid: 7}, w.forged("mallory", "whatever", "mallory", 50*rep))
 		w.probe(event{Cls: "unknown-user-hint-names-bob", Hdr: "full", Cred: "foreign", Body: "ok", Kind: "open", Sid: 7}, w.forged("mallory", "whatever", bob, 50*rep))
+		w.probe(event{Cls: "empty-password-under-a-listed-name-without-credential", Hdr: "full", Cred: "foreign", Body: "ok", Kind: "open", Sid: 7}, w.forged("guest", "", "guest", 50*rep))
 		w.probe(event{Cls: "bobs-password-under-alices-name", Hdr: "full", Cred: "foreign", Body: "ok", Kind: "open", Sid: 7}, w.forged(alice, bobPw, alice, 50*rep))
 	}
 }
